@@ -1,6 +1,7 @@
 package client
 
 import (
+	"net"
 	"time"
 
 	"github.com/pion/stun/v3"
@@ -163,5 +164,35 @@ func VerifHarness_C14_permission_refresh_round() {
 		}
 	}
 	vAssert(vLocksHeld() == 0, "C14.no_lock_left_held")
+	vReach("end")
+}
+
+// With many peers the refresh round still names every one of them.
+//
+//verif:props=C14 unwind=400 bounds="17..20 permitted peers (fixed distinct IPv4 addresses); server answers success"
+func VerifHarness_C14_permission_refresh_many_peers() {
+	fc := &vClient{fixed: vReactSuccess}
+	c := vNewUDPConn(fc)
+	k := 17 + vPick(0, 3)
+	for i := 0; i < k; i++ {
+		p := &permission{}
+		c.permMap.insert(&net.UDPAddr{IP: net.IP{10, 0, byte(i), 1}, Port: 4000 + i}, p)
+		p.setState(permStatePermitted)
+	}
+	c.onRefreshTimers(timerIDRefreshPerms)
+	named := 0
+	for _, ev := range fc.events {
+		if ev.kind != 'T' || ev.method != stun.MethodCreatePermission {
+			continue
+		}
+		m := &stun.Message{Raw: ev.raw}
+		vAssume(m.Decode() == nil)
+		for _, a := range m.Attributes {
+			if a.Type == stun.AttrXORPeerAddress {
+				named++
+			}
+		}
+	}
+	vAssert(named == k, "C14.refresh_names_every_permitted_peer")
 	vReach("end")
 }
